@@ -588,11 +588,52 @@ pub fn run_chunking(cfg: &ScenCfg, out: &mut RunOut) {
         cuts.sort();
         cuts.dedup();
     }
+    // fault: one read of server B fails in the middle of the stream, with a transient kind (the stream
+    // is intact afterwards) or a fatal one. A third server C receives only the bytes before that point.
+    // B must then behave like A (it carried on, correctly) or like C and close (it gave up there) -
+    // nothing in between
+    let read_fault: Option<(usize, std::io::ErrorKind)> = if cfg.faults && stream.len() > 2 && chance(1, 3) {
+        let f = 1 + choose(stream.len() as u32 - 1) as usize;
+        let kind = [std::io::ErrorKind::Interrupted, std::io::ErrorKind::WouldBlock, std::io::ErrorKind::TimedOut, std::io::ErrorKind::ConnectionReset][choose(4) as usize];
+        Some((f, kind))
+    } else {
+        None
+    };
+    let mut got_c: Option<(Vec<u8>, String)> = None;
+    if let Some((f, _)) = read_fault {
+        let c_addr: SocketAddr = "10.0.0.3:502".parse().unwrap();
+        let mut rig_c = start_tcp_server(c_addr, &units, 4, AddressFilter::Any, decode);
+        kernel::settle();
+        let pc = net::connect_from(c_addr, "10.0.1.1:4002".parse().unwrap()).unwrap();
+        kernel::settle();
+        let mut pos = 0;
+        for e in ends.iter().copied().chain(std::iter::once(f)) {
+            let e = e.min(f);
+            if e > pos {
+                pc.write(&stream[pos..e]);
+                pos = e;
+                kernel::settle();
+            }
+        }
+        got_c = Some((pc.take_received(), format!("{:?}", rig_c.journal.lock().unwrap())));
+        let mut fut = Box::pin(rig_c.handle.shutdown());
+        let _ = kernel::block_on(fut.as_mut());
+        drop(fut);
+        kernel::count("fault_read_err_mid_stream");
+        out.probe("read_error_mid_stream");
+    }
+    let mut fault_armed = false;
     let mut pos = 0;
     let mut deframer = MbapDeframer::default();
     for c in &cuts {
         if *c <= pos {
             continue;
+        }
+        if let Some((f, kind)) = read_fault {
+            if !fault_armed && *c > f {
+                pb.inject_read_error((f - pos) as u64, kind);
+                fault_armed = true;
+            }
         }
         if deframer.pending() > 0 {
             if deframer.pending() < 7 {
@@ -630,7 +671,20 @@ pub fn run_chunking(cfg: &ScenCfg, out: &mut RunOut) {
     let closed_b = pb.remote_closed();
     let ja = format!("{:?}", rig_a.journal.lock().unwrap());
     let jb = format!("{:?}", rig_b.journal.lock().unwrap());
-    if got_a != got_b {
+    if let (Some((f, kind)), Some((rc, jc))) = (read_fault, &got_c) {
+        let carried_on = got_b == got_a && jb == ja && closed_a == closed_b;
+        let gave_up = &got_b == rc && &jb == jc && closed_b;
+        let transient = matches!(kind, std::io::ErrorKind::Interrupted | std::io::ErrorKind::WouldBlock);
+        if !(gave_up || (transient && carried_on)) {
+            let d = format!(
+                "a read of the server failed with {:?} at byte {} of a {}-byte stream ({} frames, chunking {:?}): {} reply bytes (closed={}); carrying on correctly would give {}, giving up there {} and a closed session",
+                kind, f, stream.len(), n, &cuts[..cuts.len().min(12)], got_b.len(), closed_b, got_a.len(), rc.len()
+            );
+            out.violate("C05", "read_error_mid_stream", d.clone());
+            out.violate("C01", "read_error_mid_stream", d.clone());
+            out.violate("C07", "read_error_mid_stream", d);
+        }
+    } else if got_a != got_b {
         out.violate(
             "C05",
             "chunking_changes_replies",
@@ -651,10 +705,10 @@ pub fn run_chunking(cfg: &ScenCfg, out: &mut RunOut) {
     }
     if deframer.dead {
         out.probe("invalid_header_delivered");
-        if !closed_a || !closed_b {
+        if !closed_a || (!closed_b && read_fault.is_none()) {
             out.violate("C05", "invalid_header_not_fatal", "invalid MBAP header did not end the session".into());
         }
-    } else if closed_a || closed_b {
+    } else if closed_a || (closed_b && read_fault.is_none()) {
         out.violate("C05", "valid_stream_closed", "a stream of valid headers ended the session".into());
     }
     // absolute: number of reply frames never exceeds number of request frames before the bad header
